@@ -613,7 +613,14 @@ class Atan2(Sub):
             env.note('quadrant')
         if x <= 0 or y <= 0:
             env.nt()
-        return judge(env, out, exp, what)
+        f1 = judge(env, out, exp, what)
+        if f1 is None and form == 'v' and (x == 0 or y == 0):
+            # a zero is a zero: the negative zero that -SIN(0) or ROUND(-0.4,0) leave behind names the same point
+            out2 = env.evo('ATAN2(xa,xb)', {'xa': -0.0 if x == 0 else x, 'xb': -0.0 if y == 0 else y})
+            if out2 != out:
+                return fail('ATAN2(xa,xb) with xa=%r, xb=%r gives %s, but with the zero written as -0.0 it gives %s: one point, two angles'
+                            % (x, y, short(out), short(out2)), out, out2)
+        return f1
 
 
 # --------------------------------------------------------------------------------------------
@@ -805,6 +812,12 @@ class Pv(Sub):
                         for fv in p['futs']:
                             for t in (None, 0, 1):
                                 yield [form, r, n, pay, fv, t]
+        # growth factors that are exact doubles (1 + r a small dyadic number): where the solution -fv/(1+r)^n is itself a double it is
+        # hit to a few units in the last place - a formula that goes through exp(n*log(1+r)) multiplies its rounding by n*ln(1+r)
+        for r in (1, -0.5, 3, 0.25, -0.75):
+            for n in (1, 2, 10, 12, 20, 52, 500, 1000):
+                for fv in (1, 1024, -3):
+                    yield ['exact', r, n, 0, fv, None]
         # intermediate products beyond the double range: a number (finite) or an error, never an infinity
         for r, n, pay, fv in ((0.1, 7400, 100, None), (1, 1000, 20000000, None), (0.25, 3176, 0, 1000), (0.5, -1800, 1, None), (0, 10, 1e308, None),
                               (0, 10, 1.7e308, 1e308)):
@@ -822,6 +835,23 @@ class Pv(Sub):
         form, r, n, pay, fv, t = case
         args = [r, n, pay] + ([fv] if fv is not None else []) + ([t] if t is not None else [])
         names = ['xr', 'xn', 'xp', 'xf', 'xt'][:len(args)]
+        if form == 'exact':
+            want = -Fraction(fv) / (1 + Fraction(r)) ** n
+            try:
+                wf = float(want)
+            except OverflowError:
+                return None
+            if Fraction(wf) != want or wf == 0 or abs(wf) < 1e-300:
+                env.note('not-demanded:solution is not a double')
+                return None
+            f = call('PV', names[:4])
+            out = env.evo(f, dict(zip(names[:4], [r, n, 0, fv])))
+            env.nt()
+            pv = number_of(env, out)
+            if pv is None or abs(pv - wf) > 16 * math.ulp(wf):
+                return fail('%s with xr=%r, xn=%r, xp=0, xf=%r = %s; the solution -fv/(1+r)^n = %r is a double (1+r and its power are exact): '
+                            'expected to 16 units in the last place' % (f, r, n, fv, short(out), wf), wf, out)
+            return None
         if form == 'bad':
             # the payment-timing argument is an argument like the others: not a number -> an error, never a number
             for bad in ('"x"', '1/0', 'SQRT(-1)', '"0x"'):
